@@ -36,6 +36,7 @@ package diff
 
 // emptyArray is initialised to an empty slice and never assigned again (checked structurally: no
 // function of the package stores to it).
+//@ readonly diff.emptyArray
 //@ func markRemoved
 //@   requires len(emptyArray) == 0
 //@   assigns nothing
